@@ -27,10 +27,17 @@ def handleMRS (j : Json) : Except String Json := do
     return Json.mkObj [("unmodelled", Json.str "dup_ids"), ("ids", jList jVar m.ids)]
   let w := wf m
   let (top, sc) := m.scopes
+  -- start independence: every start for up to 12 predications, else first / middle / last
+  -- (`isConnectedFrom s` unfolded, with the edge list computed once)
+  let edges := symm m.graphEdges
+  let startsToTry := if m.ids.length ≤ 12 then m.ids
+    else (m.ids.take 1) ++ ((m.ids.drop (m.ids.length / 2)).take 1) ++ (m.ids.reverse.take 1)
   pure (Json.mkObj [
     ("ids", jList jVar m.ids),
     ("connected", Json.bool w.connected),
-    ("connected_any_start", Json.bool (m.ids.all (fun s => m.isConnectedFrom s == w.connected))),
+    ("connected_any_start", Json.bool (startsToTry.all (fun s =>
+        let seen := bfs edges s
+        (m.ids.all (fun i => decide (i ∈ seen))) == w.connected))),
     ("complete", Json.bool w.complete),
     ("unique", Json.bool w.unique),
     ("ivprop", Json.bool w.ivProperty),
